@@ -424,3 +424,15 @@ Fixpoint observe (ts : list tr) (a : act) (ps : parts) : list val :=
   | [] => [res_val (run_act a ps)]
   | t :: ts' => match apply_tr t ps with Ok qs => observe ts' a qs | Err e => [VErr e] end
   end.
+
+(* compact observation for dense sweeps over the slice count (input range(L)): count(), collect(),
+   number of partitions, (index, size) of the non-empty partitions of glom() *)
+Fixpoint nonempty_sizes (i : Z) (ps : parts) : list val :=
+  match ps with
+  | [] => []
+  | [] :: ps' => nonempty_sizes (i + 1) ps'
+  | p :: ps' => VTup [VInt i; VInt (len p)] :: nonempty_sizes (i + 1) ps'
+  end.
+Definition observe_sweep (L n : Z) : val :=
+  let ps := parallelize (map VInt (zrange 0 L)) n in
+  VTup [res_val (run_act ACount ps); res_val (run_act ACollect ps); VInt (len ps); VList (nonempty_sizes 0 ps)].
